@@ -497,6 +497,9 @@ def rand_tree(rng, depth):
     return {"op": op, "l": rand_tree(rng, depth - 1), "r": rand_tree(rng, depth - 1)}
 
 
+BIG = F(10) ** 40
+
+
 def majorant(t):
     """(abs numerator, abs denominator, lcm of coefficient denominators) of the tree's defining fraction arithmetic,
     from the inputs alone; None when something divides by an (identically) zero numerator bound"""
@@ -504,9 +507,13 @@ def majorant(t):
 
     def mmul(a, b):
         out = {}
+        if len(a) * len(b) > 4000:
+            raise OverflowError("majorant too wide")        # (from the tree alone: such a tree is skipped)
         for k1, c1 in a.items():
             for k2, c2 in b.items():
                 out[k1 + k2] = out.get(k1 + k2, 0) + c1 * c2
+        if len(out) > 80 or any(c > BIG for c in out.values()):
+            raise OverflowError("majorant outside every specified range")
         return out
 
     def madd(a, b):
